@@ -13,6 +13,7 @@ import PG.Model.CacheRead
 import PG.Model.Pinned
 import PG.Model.Meta
 import PG.Model.Sha1
+import PG.Model.Debug
 import PG.Spec.Format
 open PG
 
@@ -231,6 +232,26 @@ def step (st : St) (line : String) : St × String :=
         (st, rMeta bs ++ " uuid=" ++ hexOfBytes (mappingUuid bs) ++ " rc=" ++ toString (records bs).length)
       else bad
     | _, _ => bad
+  | ["SF", c, m, l, f, p] =>
+    match unhex c, unhex m, l.toNat?, unhexOpt f, unhexOpt p with
+    | some c, some m, some l, some f, some p =>
+      let fr : Frame := match p with
+        | some p => ⟨c, m, 0, none, some p⟩          -- `StackFrame::with_parameters`
+        | none => ⟨c, m, l, f, none⟩                 -- `with_file` / `new`
+      (st, rFrame fr ++ "/" ++ hx (printFrame fr) ++ "/" ++ hx (fullMethod fr.cls fr.method))
+    | _, _, _, _, _ => bad
+  | ["DBG"] =>
+    match st.wcache.get with
+    | .error _ => (st, "noparse")
+    | .ok k =>
+      match k.display with
+      | none => (st, "PANIC-IN-MODEL")
+      | some shown =>
+        let dbg := "ProguardCache { version: " ++ toString cacheVersion ++ ", classes: " ++ toString k.numClasses
+          ++ ", members: " ++ toString k.numMembers ++ ", members_by_params: " ++ toString k.numBp
+          ++ ", string_bytes: " ++ toString k.stringBytesDeclared ++ " }"
+        (st, hx shown ++ " " ++ hx dbg.toUTF8.toList ++ " " ++ toString k.classes.length ++ " "
+          ++ toString k.members.length ++ " " ++ toString k.byParams.length)
   | ["FULL", c, m] =>
     match unhex c, unhex m with
     | some c, some m => (st, hx (fullMethod c m))
